@@ -151,7 +151,7 @@ def value(r, depth=2, sc=scalar):
         return sc(r)
     n = 0 if r.pct() < 15 else r.between(1, 3)
     if r.pct() < 3:
-        n = r.between(9, 20)  # a long nested container
+        n = big_n(r)  # a long nested container
         depth = 1
     if c < 75:
         out = [value(r, depth - 1, sc) for _ in range(n)]
@@ -379,8 +379,8 @@ def leaf_args(r, kind, pre, name, mode="any", jsonable=False):
             if wild:
                 return anyv()
             c = r.pct()
-            if c < 7:
-                return [sc() for _ in range(r.choice([16, 24, 33, 40, 65]))]  # a long membership list
+            if c < 9:
+                return [sc() for _ in range(r.choice([24, 33, 40, 65, 129]))]  # a long membership list
             if c < 60:
                 return [sc() for _ in range(r.between(0, 4))]
             if c < 80:
@@ -512,13 +512,20 @@ def blind_part(r, mode="typed", cond_depth=1, labels=False, meaningful=False, js
             return tree(r, kinds, mode, cond_depth, null_p=5, meaningful=meaningful, jsonable=jsonable)
         return Null()
 
-    return Part(
+    p = Part(
         ct,
         key=mk(("key",)) if ct != "list" else None,
         index=mk(("index",)) if ct != "map" else None,
         value=mk(("value",)),
         label=r.choice(LABELS) if labels and r.coin() else None,
     )
+    if ct == "mol" and isinstance(p.key, Leaf) and isinstance(p.index, Null) and isinstance(p.value, Null) and r.pct() < 40:
+        # a single key-like condition given in the generic `condition` slot (nothing else): on a
+        # list such a part cannot be evaluated and matches nothing.  (Combined with other
+        # conditions the library evaluates key conditions on list indices - ill-kinded use that
+        # the properties do not cover and that is not generated.)
+        p.generic = True
+    return p
 
 
 def anchored_value_cond(r, child, mode, depth, meaningful=False, jsonable=False):
@@ -615,6 +622,9 @@ def guided_path(r, doc_, max_len=4, miss=18, mode="typed", labels=False, prim_on
                         continue
                 else:
                     kc = Leaf("key", None, cnd, kwargs={"value": r.subset(ks)})
+                if ct == "mol" and r.pct() < 15 and not (jsonable and not _jsonable(kc.kwargs["value"])):
+                    parts.append(Part(ct, key=kc, label=lab, generic=True))  # key condition in the generic slot
+                    continue
                 if jsonable and not _jsonable(kc.kwargs["value"]):
                     kc = Leaf("key", "dtype", "equal_to", kwargs={"value": type(k)}) if type(k) in TYPES else Null()
                 parts.append(Part(ct, key=kc, label=lab))
